@@ -196,6 +196,19 @@ def run(ck):
         ck.coverage["row_estimate_arms"] = len(ra["arms"])
         if not ra.get("clamped"):
             ck.report("translator:rows-clamp", "analyze_rows no longer clamps its result (`rows.min(f32::MAX)`): estimates may be infinite, `inf * 0.0` is NaN", replay={"arms": ra["arms"]}, found_input=False)
+    # the cost arms are regenerated from planner/cost.rs (one statement per arm: costs never negative)
+    rc, out = vlib.sh([sys.executable, os.path.join(vlib.VERIF, "translator/gen_cost.py"), vlib.REPO])
+    ck.log(out.strip().split("\n")[-1][:160])
+    cost_thms = []
+    if rc != 0:
+        ck.report("translator:cost", "cost translator failed (planner/cost.rs CostFn::cost is no longer of a shape the statements are generated from): " + out[-300:],
+                  replay={"out": out[-1500:]}, found_input=False)
+    else:
+        ca = json.load(open(os.path.join(vlib.LEAN, "RlModel/Gen/cost_arms.json")))
+        cost_thms = ["Cost.%s_inv" % a for a in ca["arms"]]
+        ck.coverage["cost_arms"] = len(ca["arms"])
+        if not ca.get("clamped"):
+            ck.report("translator:cost-clamp", "CostFn::cost no longer clamps its result (`c.min(f32::MAX)`): a cost may be infinite, `0.0 * inf` is NaN", replay={"arms": ca["arms"]}, found_input=False)
     # rules translator (stage composition is needed by the harness)
     rc, out = vlib.sh([sys.executable, os.path.join(vlib.VERIF, "translator/gen_rules.py"), vlib.REPO])
     if rc != 0:
@@ -207,6 +220,8 @@ def run(ck):
     # ---- Lean
     bad = vlib.step_lean(ck, "RlModel.Thm.C17", THEOREMS, extra_targets=["drv_c17"])
     bad.update(vlib.step_lean(ck, "RlModel.Thm.C17Proj", THEOREMS_PROJ))
+    if cost_thms:
+        bad.update(vlib.step_lean(ck, "RlModel.Thm.C17Cost", cost_thms + ["Cost.discounted_cost_negative"]))
     if rows_thms:
         bad.update(vlib.step_lean(ck, "RlModel.Thm.C17Rows", rows_thms + ["Rows.not_of_unclamped_in_negative", "Rows.limit_minus_offset_negative"]))
     for name, st in bad.items():
